@@ -800,7 +800,7 @@ func litestream.(*DB).checkpointWithExecutor(db, ctx, mode, exec) (walRestarted,
   at sql.(*Tx).ExecContext#1 set ckx_barrier = ($result1 == nil)
   at litestream.(*DB).verifyAndSyncWithExecutor#2 set ckx_sealed = ($result1 == nil)
   at litestream.(*DB).execCheckpoint#1 assert [C02.copy-before] ckx_copied
-  at litestream.(*DB).execCheckpoint#1 set ckx_syncedOff = exec.state.lastSyncedWALOffset
+  at litestream.(*DB).execCheckpoint#1 reset ckx_syncedOff = exec.state.lastSyncedWALOffset
   at litestream.(*DB).execCheckpoint#1 assert [C02.seal] mode == litestream.CheckpointModePassive ==> ckx_barrier && ckx_sealed
   at litestream.(*DB).verifyAndSyncWithExecutor#3 set ckx_after = ($result1 == nil)
   at litestream.(*DB).verifyAndSyncWithExecutor#4 set ckx_after = ($result1 == nil)
